@@ -143,6 +143,8 @@ Tpl(name) ==
       [] name = "L2u" -> List(<<KAtom(ua), KAtom(uk)>>)
       [] name = "L3" -> List(<<KAtom(ua), KAtom(nu), KAtom(uk)>>)
       [] name = "L3u" -> List(<<KAtom(ua), KAtom(ua), KAtom(uk)>>)
+      [] name = "L4" -> List(<<KAtom(ua), KAtom(nu), KAtom(uk), KAtom(ua)>>)
+      [] name = "L4u" -> List(<<KAtom(ua), KAtom(uk), KAtom(uk), KAtom(ua)>>)
       [] name = "Lt" -> List(<<KAtom(tu), KAtom(nu)>>)
       [] name = "Lz" -> List(<<KAtom(ua), KAtom(ze), KAtom(nu)>>)
       [] name = "N21" -> List(<<List(<<KAtom(nu), KAtom(ua)>>), KAtom(uk)>>)
